@@ -53,9 +53,11 @@ def cases(tier, seed):
         F_h = gen.feat(101, h)          # independent feature choices per case (gen.feat)
         tname = names[F_h("len_names@48", len(names))]
         table = T[tname]
+        if F_h("wide", 6) == 0:
+            table = gen.binnify([12, 8], 1)        # 20 bins: more than a narrow ID dtype can multiply
         n = len(table)
         mode = "symm" if F_h("m3@51", 3) else "square"
-        base = gen.random_store(rng, n, mode, maxval=3)
+        base = gen.random_store(rng, n, mode, maxval=3, density=None if n <= 10 else 0.12)
         rows = [p for p in base for _ in range(rng.choice([1, 1, 2, 3]))]     # repeated pixels
         if F_h("m11@54", 11) == 0:
             rows = []
@@ -79,6 +81,9 @@ def cases(tier, seed):
         if case["form"] == "frame":
             case["labels"] = ["default", "perm", "offset", "default"][F_h("m4@74", 4)]
         case["id_dtype"] = ["int64", "int32", "int16", "uint8", "int8"][F_h("m5@75", 5)]
+        case["stored_id_dtype"] = ["", "", "uint8", "int16", "int8"][F_h("storedid", 5)]
+        case["assembly"] = ["", "hg19", "my assembly"][F_h("asm", 3)]
+        case["meta_tag"] = [0, 7, 12345][F_h("meta", 3)]
         if case.get("ensure_sorted") and F_h("checksoff", 2) == 1:
             case["checks_off"] = True            # sorting requested with every check switched off
         if F_h("valdt", 5) == 3 and ncols == 1 and "scale" not in case:
